@@ -58,6 +58,7 @@ func vWait()
 func vSchedBound(n int)
 func vStop()
 func vRunUntilStop(f func()) bool
+func vFreeVar(f any, i int) any
 `
 
 type Loaded struct {
